@@ -413,7 +413,9 @@ class TriangularLattice(SquareLattice):
         # Hence, we store pattern in format Sequence[Sequence[int]].
         return {'type': type(self).__name__,
                 'dict_ver': 1,
-                'pattern': [[self.site2index((row, col)) for col in range(self.Ny)] for row in range(self.Nx)]}
+                'dims': self.dims,
+                'boundary': self.boundary,
+                'full_patch': self.full_patch}
 
 
 LATTICE_CLASSES = {"SquareLattice": SquareLattice,
